@@ -100,6 +100,26 @@ def check_writers(s, out):
         want += [[x.nt1.full_name, x.nt2.full_name, "base-ribose interaction", x.br.value if x.br else "", ""] for x in bi.baseRiboseInteractions]
         if rows != want:
             out.append(viol("writers:csv-differs", "CSV rows differ from the interaction lists", rows[:3], want[:3]))
+        # the names written are those of residues of THIS structure, spelled from their own author identity (chain.name[/]number[^icode])
+        def spell(nt):
+            a = nt.auth
+            if a is None:
+                return None
+            txt = a.name if a.chain.isspace() else "%s.%s" % (a.chain, a.name)
+            if a.name and a.name[-1].isdigit():
+                txt += "/"
+            return txt + str(a.number) + ("^%s" % a.icode if a.icode else "")
+
+        own = {spell(r) for r in s.residues if r.auth is not None}
+        lists = list(bi.basePairs) + list(bi.stackings) + list(bi.basePhosphateInteractions) + list(bi.baseRiboseInteractions)
+        if len(lists) == len(rows):
+            for row, x in zip(rows, lists):
+                exp = [spell(x.nt1), spell(x.nt2)]
+                if None in exp:
+                    continue
+                if row[:2] != exp or not set(exp) <= own:
+                    out.append(viol("writers:csv-names", "CSV row names %s; the interaction joins %s (residues of the analysed structure spelled from their author identity)" % (row[:2], exp), row[:2], exp))
+                    break
     w = observe(write_json, pj, s2d)
     if w[0] == "exc":
         out.append(viol("writers:json:" + w[1], "write_json raised " + w[2]))
@@ -170,6 +190,9 @@ def run_case(case):
     base = digest(bi)
     n = sum(len(x) for x in base)
     if case["g"] == 3 and case["kind"] in ("identity", "jitter"):
+        check_writers(s, out)
+    elif case["g"] in (1, 5) and n and (case["g"] == 5 or (case["th"] + case["ph"]) % 120 == 0):
+        # the writers on generated structures too: their residues share chains and numbers and differ in names from one case to the next
         check_writers(s, out)
     outcomes = {json.dumps(base)}
     if case.get("schedules") and _seam[0] and n and seams.PAIR_ORDER.last:
